@@ -25,7 +25,7 @@ CLAIMS["C06"] = dict(
     text="Same exploration as C05 plus envelopes with symbolic interiors followed by a valid message; an independent framer of the outer TLV headers runs on the same symbolic bytes and the obligation 'messages returned == complete units delivered' is discharged by z3 on every error-free path.",
     ref="DESIGN.md 3/C06", technique="symbolic execution of the real receive path (SX) + independent TLV framer as oracle, z3 validity queries")
 CLAIMS["C01"] = dict(
-    text="Bounded symbolic execution of pack() and unpack_ldap_message(): message skeletons (kind x optionals x list lengths x filter trees x control forms) are enumerated, every int/bool/text/octet content is a solver variable; per path z3 proves decoded == original field by field, exact consumption against a symbolic sentinel, and byte-equal re-encoding.",
+    text="Bounded symbolic execution of pack() and unpack_ldap_message(): message skeletons (kind x optionals x list lengths x filter trees x control forms) are enumerated, every int/bool/text/octet content is a solver variable; per path z3 proves decoded == original field by field, exact consumption against a symbolic sentinel, byte-equal re-encoding, the same bytes after a failed pack() of another message, and that the encoding follows a later change of the message.",
     ref="DESIGN.md 3/C01", technique="symbolic execution of the real encoder+decoder (SX) + z3 validity queries")
 CLAIMS["C03"] = dict(
     text="The symbolic bytes produced by the real pack() are decoded by an independent strict RFC 4511/X.690 decoder (oracles/ref_ber.py) running on the same solver variables; every well-formedness condition and the equality of the recovered abstract message with the message's fields is a z3 validity query. Symmetric encoder/decoder mistakes are therefore visible.",
@@ -36,15 +36,15 @@ CLAIMS["C02"] = dict(
 CLAIMS["C04"] = dict(
     text="The canonical encoding of each skeleton (symbolic contents) is parsed into a generic TLV tree and re-encoded with the freedoms BER/RFC 4511 permit (long-form lengths per node and globally, TRUE as a symbolic non-zero octet, explicit DEFAULT values, one unrecognised trailing element with symbolic tag/content after each extensible SEQUENCE); z3 proves the library decodes every variant to the original message.",
     ref="DESIGN.md 3/C04", technique="symbolic execution of the real decoder on re-encoded variants (SX) + z3 validity queries")
-CLAIMS["C08"] = dict(text='Inductive step on the real LDAPClient/LDAPServer objects (one public call with symbolic id / result code / drain amount from an arbitrary symbolic pre-state satisfying the representation invariant, which every real-mode replay reaches through public calls only) plus bounded model checking of every call sequence of depth 2 (quick) / 3 (thorough) from fresh sessions; post-conditions come from an independent ghost model of the documented state machine and are z3 validity queries. Clauses checked here: state transition table, CLOSED absorbing (rejected, no bytes, no data accepted), bind refused while operations are outstanding, only bind traffic or terminations while BINDING, invariant preserved.', ref="DESIGN.md 3/C08-C12", technique="symbolic execution of real session calls from symbolic pre-states (one-step induction) + bounded model checking, z3 validity queries against a ghost state machine")
-CLAIMS["C09"] = dict(text='Inductive step on the real LDAPClient/LDAPServer objects (one public call with symbolic id / result code / drain amount from an arbitrary symbolic pre-state satisfying the representation invariant, which every real-mode replay reaches through public calls only) plus bounded model checking of every call sequence of depth 2 (quick) / 3 (thorough) from fresh sessions; post-conditions come from an independent ghost model of the documented state machine and are z3 validity queries. Clauses checked here: returned id = old counter >= 1, counter +1, id decoded (reference decoder) from the emitted bytes equals the returned id, acceptance iff the id is in progress, searches retired only by done, unknown/retired id or request-type message => ProtocolError + CLOSED.', ref="DESIGN.md 3/C08-C12", technique="symbolic execution of real session calls from symbolic pre-states (one-step induction) + bounded model checking, z3 validity queries against a ghost state machine")
-CLAIMS["C10"] = dict(text='Inductive step on the real LDAPClient/LDAPServer objects (one public call with symbolic id / result code / drain amount from an arbitrary symbolic pre-state satisfying the representation invariant, which every real-mode replay reaches through public calls only) plus bounded model checking of every call sequence of depth 2 (quick) / 3 (thorough) from fresh sessions; post-conditions come from an independent ghost model of the documented state machine and are z3 validity queries. Clauses checked here: a refused call leaves the outgoing stream untouched and raises only LDAPError; the server emits only for outstanding ids; final responses retire the request.', ref="DESIGN.md 3/C08-C12", technique="symbolic execution of real session calls from symbolic pre-states (one-step induction) + bounded model checking, z3 validity queries against a ghost state machine")
-CLAIMS["C12"] = dict(text='Inductive step on the real LDAPClient/LDAPServer objects (one public call with symbolic id / result code / drain amount from an arbitrary symbolic pre-state satisfying the representation invariant, which every real-mode replay reaches through public calls only) plus bounded model checking of every call sequence of depth 2 (quick) / 3 (thorough) from fresh sessions; post-conditions come from an independent ghost model of the documented state machine and are z3 validity queries. Clauses checked here: data_to_send(a) returns x with x + rest == before for every int a or None and changes nothing else; every other call only appends (and a successful send appends one well-formed message); by induction the drained concatenation equals the concatenation of the successful sends.', ref="DESIGN.md 3/C08-C12", technique="symbolic execution of real session calls from symbolic pre-states (one-step induction) + bounded model checking, z3 validity queries against a ghost state machine")
+CLAIMS["C08"] = dict(text='Inductive step on the real LDAPClient/LDAPServer objects (one public call with symbolic id / result code / drain amount from an arbitrary symbolic pre-state satisfying the representation invariant, which every real-mode replay reaches through public calls only) plus bounded model checking from fresh sessions: every call sequence of depth 2 incl. variants carrying a paged-results control (quick); depth 2+3 and depth 4 over the property's own operation alphabet (thorough); post-conditions come from an independent ghost model of the documented state machine and are z3 validity queries. Clauses checked here: state transition table, CLOSED absorbing (rejected, no bytes, no data accepted), bind refused while operations are outstanding, only bind traffic or terminations while BINDING, invariant preserved.', ref="DESIGN.md 3/C08-C12", technique="symbolic execution of real session calls from symbolic pre-states (one-step induction) + bounded model checking, z3 validity queries against a ghost state machine")
+CLAIMS["C09"] = dict(text='Inductive step on the real LDAPClient/LDAPServer objects (one public call with symbolic id / result code / drain amount from an arbitrary symbolic pre-state satisfying the representation invariant, which every real-mode replay reaches through public calls only) plus bounded model checking from fresh sessions: every call sequence of depth 2 incl. variants carrying a paged-results control (quick); depth 2+3 and depth 4 over the property's own operation alphabet (thorough); post-conditions come from an independent ghost model of the documented state machine and are z3 validity queries. Clauses checked here: returned id = old counter >= 1, counter +1, id decoded (reference decoder) from the emitted bytes equals the returned id, acceptance iff the id is in progress, searches retired only by done, unknown/retired id or request-type message => ProtocolError + CLOSED.', ref="DESIGN.md 3/C08-C12", technique="symbolic execution of real session calls from symbolic pre-states (one-step induction) + bounded model checking, z3 validity queries against a ghost state machine")
+CLAIMS["C10"] = dict(text='Inductive step on the real LDAPClient/LDAPServer objects (one public call with symbolic id / result code / drain amount from an arbitrary symbolic pre-state satisfying the representation invariant, which every real-mode replay reaches through public calls only) plus bounded model checking from fresh sessions: every call sequence of depth 2 incl. variants carrying a paged-results control (quick); depth 2+3 and depth 4 over the property's own operation alphabet (thorough); post-conditions come from an independent ghost model of the documented state machine and are z3 validity queries. Clauses checked here: a refused call leaves the outgoing stream untouched and raises only LDAPError; the server emits only for outstanding ids; final responses retire the request.', ref="DESIGN.md 3/C08-C12", technique="symbolic execution of real session calls from symbolic pre-states (one-step induction) + bounded model checking, z3 validity queries against a ghost state machine")
+CLAIMS["C12"] = dict(text='Inductive step on the real LDAPClient/LDAPServer objects (one public call with symbolic id / result code / drain amount from an arbitrary symbolic pre-state satisfying the representation invariant, which every real-mode replay reaches through public calls only) plus bounded model checking from fresh sessions: every call sequence of depth 2 incl. variants carrying a paged-results control (quick); depth 2+3 and depth 4 over the property's own operation alphabet (thorough); post-conditions come from an independent ghost model of the documented state machine and are z3 validity queries. Clauses checked here: data_to_send(a) returns x with x + rest == before for every int a or None and changes nothing else; every other call only appends; a successful send contributes exactly its own message, a delivery or a failed send contributes nothing; by induction the drained concatenation equals the concatenation of the successful sends.', ref="DESIGN.md 3/C08-C12", technique="symbolic execution of real session calls from symbolic pre-states (one-step induction) + bounded model checking, z3 validity queries against a ghost state machine")
 CLAIMS["C18"] = dict(
     text="Every regular expression the current tree compiles (captured at import and call time) is translated to sre's backtracking automaton; a z3 Fixedpoint (Datalog) query over the product automaton decides exponential ambiguity with no bound on the pump length, and a positive is confirmed by timing the attack string on the real re before it is reported. The hand-written filter scanner is executed symbolically on every string up to the bound with structural progress obligations (each recursive call consumes >= 1, nested calls of the same function get strictly shorter intervals, sibling consumption ranges are disjoint and ordered), from which the O(n^2) bound follows by an induction argued in DESIGN.md.",
     ref="DESIGN.md 1.3, 3/C18", technique="regex -> backtracking automaton -> z3 Datalog fixpoint (no length bound) + symbolic execution (SX) of the recursive-descent scanner", engine="RX+SX")
 CLAIMS["C13"] = dict(
-    text="Filter trees of enumerated shape with symbolic contents: attribute descriptions / matching rules range over ALL RFC 4512-valid strings of the given length (assumed through a regular-language membership formula), values over all octets. Symbolic execution of the real __str__ and from_string; z3 proves from_string(str(f)) == f and that str(f) lies in the RFC 4515 regular language of its shape (every special octet escaped).",
+    text="Filter trees of enumerated shape with symbolic contents: attribute descriptions / matching rules range over ALL RFC 4512-valid strings of the given length (assumed through a regular-language membership formula), values over all octets. Symbolic execution of the real __str__ and from_string; z3 proves from_string(str(f)) == f and that str(f) lies in the RFC 4515 regular language of its shape (every special octet escaped); the same after scribbling over the first result, after rejected input, and after the caller changed the tree.",
     ref="DESIGN.md 3/C13", technique="symbolic execution of the real serializer+parser incl. their regexes (SX) + z3 validity queries; RFC language membership as one formula")
 CLAIMS["C14"] = dict(
     text="Sentences generated from the RFC 4515 ABNF (every production, dn keyword in every case, escapes with symbolic hex digits of either case, raw UTF-8 of 2-4 octets, tolerated spaces) carry the tree the grammar denotes; z3 proves the real parser returns exactly that tree and that the SearchRequest bytes strict-decode (independent RFC 4511 decoder) to it.",
@@ -53,7 +53,7 @@ CLAIMS["C15"] = dict(
     text="Every string up to the bound (every code point symbolic, lone surrogates included) and 2/3-character symbolic windows over grammar sentences go through the real from_string: only a filter or FilterSyntaxError with an in-range offset/length may come out; on acceptance every attribute description / matching rule is RFC 4512-valid (membership formula, layered so that pinned deviations keep separate signatures) and str(result) re-parses to an equal result. Plus an unbounded z3 string-theory query: L(library attribute pattern with Python's $) is included in RFC 4512.",
     ref="DESIGN.md 3/C15", technique="symbolic execution of the real parser on symbolic text (SX) + z3; z3 regex-theory language inclusion (no length bound)")
 CLAIMS["C16"] = dict(
-    text="Objects of the three description classes for a covering set of field-presence combinations with symbolic contents (description / extension text: 1..3 code points over ALL scalar values; OIDs and descriptors over all RFC 4512-valid strings of the given length; symbolic syntax length) go through the real __str__ and from_string (the description regexes are executed by a matcher that follows sre's priority order on symbolic characters); z3 proves from_string(str(d)) == d.",
+    text="Objects of the three description classes for a covering set of field-presence combinations with symbolic contents (description / extension text: 1..3 code points over ALL scalar values; OIDs and descriptors over all RFC 4512-valid strings of the given length; symbolic syntax length) go through the real __str__ and from_string (the description regexes are executed by a matcher that follows sre's priority order on symbolic characters); z3 proves from_string(str(d)) == d, also for a second parse after scribbling over the first result and for the text form after the caller changed the definition.",
     ref="DESIGN.md 3/C16", technique="symbolic execution of the real serializer+parser incl. their regexes (SX) + z3 validity queries")
 CLAIMS["C17"] = dict(
     text="Sentences generated from the RFC 4512 ABNF of the three descriptions (single/parenthesised lists, 0..2 extensions, AD quoted SYNTAX, quoted-string pieces incl. \\27 \\5c \\5C and non-ASCII, every SP/WSP position varied) carry the object the grammar denotes; z3 proves the real parser returns equal fields. Totality: 2-character symbolic windows over the sentences yield a definition or ValueError on every path.",
@@ -62,7 +62,7 @@ CLAIMS["C11"] = dict(
     text="Joint bounded model checking on the real LDAPClient/LDAPServer joined by two byte pipes: every schedule of 3 (quick) / 4 (thorough) actions out of 14 (client calls, matching-kind server responses incl. notice of disconnection, whole / one-octet / half deliveries in both directions), every schedule of 5 / 6 whole-delivery actions, and 15 scripted scenarios up to 10 actions, with symbolic result codes and payloads. z3 proves after every action: no exception but the designed terminations, every received message equals the next sent one, agreement on state and operations in progress whenever both pipes are empty. The one-step joint induction of DESIGN.md was not built; the claim is the BMC bound.",
     ref="DESIGN.md 3/C11", technique="symbolic execution of both real sessions along bounded schedules (joint BMC, SX) + z3 validity queries")
 CLAIMS["C19"] = dict(
-    text="Two real sessions run schedules of two calls with symbolic arguments alone (each in a freshly loaded copy of the library) and in all 6 interleavings (in a third copy); z3 proves every transcript entry (outcome, result, state, emitted bytes) equal. All 8 subsets of custom control / filter / credential registered on one session only: symbolic payloads decode to the custom type there and to the generic control / ProtocolError elsewhere; duplicates raise ValueError; the other session's choice lists are unchanged.",
+    text="Two real sessions run schedules of two calls with symbolic arguments alone (each in a freshly loaded copy of the library) and in all 6 interleavings (in a third copy); z3 proves every transcript entry (outcome, result, state, emitted bytes) equal. All 8 subsets of custom control / filter / credential registered on one session only: symbolic payloads decode to the custom type there and to the generic control / ProtocolError elsewhere; duplicates raise ValueError; the other session's choice lists are unchanged. Every history of 3 (thorough: 4) registrations / deliveries of two custom types on one session is judged by a ghost registry.",
     ref="DESIGN.md 3/C19", technique="symbolic execution of two real sessions in isolated vs interleaved order on fresh library copies (SX) + z3 transcript-equality queries")
 PENDING = {}
 
